@@ -9,21 +9,21 @@ from gv.model import dbutil
 
 ID = "C16"
 RULE = (
-    "Part 'merge' (shards = 11 criteria sets x blocks of multisets): every start-ordered multiset of <= 3 intervals over 6 positions "
+    "Part 'merge' (shards = 12 criteria sets x blocks of multisets): every start-ordered multiset of <= 3 intervals over 6 positions "
     "plus all 4-multisets over 4 positions (quick, 2738) / <= 5 intervals over 6 positions (thorough, 65779) x seqid/strand/type "
     "pattern {uniform, last differs in strand, type, seqid, a sequence name holding a comma (<= 2 members only)} x object history "
-    "{fresh, previously merged under 'exact', merged twice, outputs re-merged, after children_bp calls}; criteria = default, 7 library "
-    "sets, two custom predicates (one answering with non-bool values) and the empty list, handed over as list/tuple/iterator/generator "
-    "in rotation. The real merge() output is compared with a reference run-builder: partition, extents, fresh distinct ids, singletons, "
+    "{fresh, previously merged under 'exact', merged twice, outputs re-merged, after children_bp calls}; criteria = default, 8 library "
+    "sets, two custom predicates (one answering with non-bool values) and the empty list, given as list/tuple/iterator/generator in "
+    "rotation. The real merge() output is compared with a reference run-builder: partition, extents, fresh distinct ids, singletons, "
     "inputs unchanged, repeatability, default-criteria extents equal an independent interval union, no exception; database unchanged on "
     "sampled executions. Part 'db': multisets of <= 3 members (quick: all) x {merge_all, merge_all exclude_components, merge_all with "
-    "end-threshold-2 and with exact criteria, children_bp, children_bp merge} x ascending/descending file order on real file databases "
-    "whose exons are children of the transcript and, at two levels, of the gene: result count, stored extents, result visible through a "
-    "second connection, components deleted or related, singletons kept; children_bp value via transcript and via gene, keyword = "
-    "positional call, database unchanged. Part 'scale' (2 executions): 1700 exons with one 1300-member run, merge_all with both "
-    "exclude_components settings. Non-trivial = the reference partition has a multi-member run and a run boundary, or objects are not "
-    "fresh (merge); a multi-member run (db); every scale execution. children_bp without `merge` must equal merge=False (the documented "
-    "default)."
+    "end-threshold-2 and with exact criteria, merge_all over two featuretype groups (exon + CDS copies, each merged on its own), "
+    "children_bp, children_bp merge} x ascending/descending file order on real file databases whose exons are children of the "
+    "transcript and, at two levels, of the gene: result count, stored extents, result visible through a second connection, components "
+    "deleted or related, singletons kept; children_bp value via transcript and via gene, keyword = positional call, database unchanged. "
+    "Part 'scale' (2 executions): 1700 exons with one 1300-member run, merge_all with both exclude_components settings. Non-trivial = "
+    "the reference partition has a multi-member run and a run boundary, or objects are not fresh (merge); a multi-member run (db); "
+    "every scale execution. children_bp without `merge` must equal merge=False (the documented default)."
 )
 ASSUMPTIONS = [
     "criteria sets are such that an ambiguous accumulated field (seqid list, '.', 'sequence_feature') is never consulted",
